@@ -22,12 +22,18 @@ def p_hexpr(t: Toks):
     return ("A", p_hexpr(t), p_hexpr(t))
 
 
-def ev(e, mode):
+def ev(e, mode, pool=None):
     if e[0] == "L":
+        if pool is not None:
+            # aliasing mode: operands with the same kind and text are ONE object, as when a fragment is reused
+            key = (e[1], e[2])
+            if key not in pool:
+                pool[key] = {"p": lambda s: s, "h": HTML, "o": Obj}[e[1]](e[2])
+            return pool[key]
         return {"p": lambda s: s, "h": HTML, "o": Obj}[e[1]](e[2])
-    a = ev(e[1], mode)
-    b = ev(e[2], mode)
-    if mode == "+=":
+    a = ev(e[1], mode, pool)
+    b = ev(e[2], mode, pool)
+    if mode in ("+=", "+=alias"):
         a += b
         return a
     return a + b
@@ -37,7 +43,14 @@ def ev(e, mode):
 def _hexpr(t: Toks) -> str:
     mode = t.next()
     e = p_hexpr(t)
-    v = ev(e, mode)
+    pool = {} if mode == "+=alias" else None
+    v = ev(e, mode, pool)
+    if pool is not None:
+        # `x += y` must build a new value: every operand object still has to be what it was
+        for (kind, text), obj in pool.items():
+            now = obj.as_string() if isinstance(obj, HTML) else str(obj)
+            if now != text:
+                return "err mutated-operand"
     if isinstance(v, HTML):
         return "ok h " + es(v.as_string())
     if isinstance(v, str):
